@@ -172,6 +172,16 @@ def run(ctx):
                  sample={'shape': shape, 'registered': regs[:2], 'script': script} if it < 2 else None)
         ctx.count('shape_' + shape)
         judge(ctx, regs, script, unknown)
+    # an empty registry must still reject unknown references; constants that are falsy as Python objects expand like any other
+    bogus = B.encode(bytes(32), 'expr')
+    for script in (const_ref(bogus), [{'prim': 'DROP'}, const_ref(bogus)], {'prim': 'pair', 'args': [{'prim': 'nat'}, const_ref(bogus)]}):
+        ctx.case(('empty-registry', repr(script)), nontrivial=True)
+        judge(ctx, [], script, True)
+    for val in ([], {'int': '0'}, {'string': ''}, {'bytes': ''}, {'prim': 'Unit'}, [[]]):
+        h = expr_hash(val)
+        ctx.case(('falsy-constant', repr(val)), nontrivial=True)
+        judge(ctx, [val], [{'prim': 'PUSH', 'args': [{'prim': 'unit'}, const_ref(h)]}, const_ref(h)], False)
+        judge(ctx, [val, [const_ref(h), {'prim': 'DROP'}]], const_ref(expr_hash([const_ref(h), {'prim': 'DROP'}])), False)
     ctx.require('resolve_calls', 100)
     ctx.require('expansions_equal' if not ctx.violations else 'resolve_calls', 50)
     ctx.require('unknown_hash_cases', 10)
